@@ -27,6 +27,10 @@ import (
 //   mom        a momentum whose content is a chosen prefix of the pooled blocks of chosen accounts
 //   rollback   chain.RollbackTo 1-3 momentums below the frontier (or to the frontier itself)
 //   restart    close + reopen on the same directory
+//   reorg      a reorganisation delivered by a peer: protocol.ChainBridge.InsertChain of a strictly longer side chain built on
+//              a second real node from a fork point 1-3 momentums down (re-used and fresh blocks; the same sends in the same /
+//              another order / left out), with unconfirmed blocks in the pool of the node under test; for the model:
+//              rollback to the fork point + the side chain's blocks (put) and momentums (mom)
 // After EVERY operation the stream prints, read from the REAL stores: confirmed and pool-frontier balances, received
 // markers and pending sets per account, the stored inbox counters (mailbox size, account front index, live entries) of the
 // contracts and the pool-level front index, and the pool contents per account. The Lean driver replays the operations
@@ -36,6 +40,7 @@ import (
 //   C04  received marker of (account, send) is set  <=>  the account's CONFIRMED chain holds a receive of that send
 //   C04  stored inbox: size = number of confirmed sends to the contract, entries = their hashes in confirmation order,
 //        front index = number of confirmed receives of the contract, which answer the entries in order
+//        and the unconfirmed (pooled) receives of the contract continue that order on the CURRENT chain
 //   C01  at the confirmed state and at the pool state: ZNN / QSR supply = sum of all balances + amounts in flight
 // ---------------------------------------------------------------------------------------------------
 
@@ -197,17 +202,17 @@ func (r *lnRun) submit(tpl *nom.AccountBlock, what string) {
 	}
 }
 
-func (r *lnRun) momentum(blocks []*nom.AccountBlock, desc string) bool {
-	var err error
+// lnProduce makes the node `f` produce and insert a momentum with the given content (signed by the elected pillar)
+func lnProduce(f *zFollower, blocks []*nom.AccountBlock) (err error) {
 	if p := safely(func() {
-		ch := r.f.ch
+		ch := f.ch
 		prev, e := ch.GetFrontierMomentumStore().GetFrontierMomentum()
 		if e != nil {
 			err = e
 			return
 		}
 		tsec := int64(prev.TimestampUnix) + 10
-		exp, e := r.f.cons.GetMomentumProducer(time.Unix(tsec, 0))
+		exp, e := f.cons.GetMomentumProducer(time.Unix(tsec, 0))
 		if e != nil || exp == nil {
 			err = fmt.Errorf("no producer: %v", e)
 			return
@@ -217,7 +222,7 @@ func (r *lnRun) momentum(blocks []*nom.AccountBlock, desc string) bool {
 		m := &nom.Momentum{ChainIdentifier: ch.ChainIdentifier(), PreviousHash: prev.Hash, Height: prev.Height + 1,
 			TimestampUnix: uint64(tsec), Content: nom.NewMomentumContent(blocks), Version: 1}
 		m.EnsureCache()
-		tx, e := r.f.sup.GenerateMomentum(&nom.DetailedMomentum{Momentum: m, AccountBlocks: blocks}, keyOf(*exp).Signer)
+		tx, e := f.sup.GenerateMomentum(&nom.DetailedMomentum{Momentum: m, AccountBlocks: blocks}, keyOf(*exp).Signer)
 		if e != nil {
 			err = e
 			return
@@ -226,6 +231,11 @@ func (r *lnRun) momentum(blocks []*nom.AccountBlock, desc string) bool {
 	}); p != "" {
 		err = fmt.Errorf("panic: %s", firstLine(p))
 	}
+	return err
+}
+
+func (r *lnRun) momentum(blocks []*nom.AccountBlock, desc string) bool {
+	err := lnProduce(r.f, blocks)
 	r.note = "momentum " + desc
 	r.c.Emit("LN-mom %s | %s", desc, lnClass(err))
 	if err != nil {
@@ -418,6 +428,23 @@ func (r *lnRun) observe() {
 				return
 			}
 		}
+		// the unconfirmed receives of the contract continue the same order: pooled receive j answers entry front + j
+		for j, b := range r.pooled(ca) {
+			i := len(crecvOrder[ca]) + j
+			if b.BlockType != nom.BlockTypeContractReceive {
+				continue
+			}
+			if i >= len(inbox[ca]) {
+				r.fail("C04: unconfirmed receive %d of %s answers %s, the inbox of the current chain has only %d entries", i+1, addrName(ca), h8(b.FromBlockHash), len(inbox[ca]))
+				return
+			}
+			if inbox[ca][i] != b.FromBlockHash {
+				r.fail("C04: the unconfirmed block of %s answers %s as its %d-th call; the inbox of the current chain lists %s there (FIFO: one send would be received twice, one never)",
+					addrName(ca), h8(b.FromBlockHash), i+1, h8(inbox[ca][i]))
+				return
+			}
+			c.Hit("pooled-contract-receive-fifo-checked")
+		}
 		l := "-"
 		if len(live) > 0 {
 			l = strings.Join(live, ",")
@@ -506,6 +533,368 @@ func (r *lnRun) observe() {
 		c.Emit("LN-pool %s | %s", addrName(a), l)
 	}
 	c.Emit("LN-height | %d", top-1)
+}
+
+// contractReceive: the contract's own receive of `send`, built by the supervisor as the pillar worker does
+func (r *lnRun) contractReceive(ca types.Address, send *nom.AccountBlock) {
+	k := len(r.pooled(ca))
+	var ce *vm.ContractExecution
+	var gerr error
+	if p := safely(func() { ce, gerr = r.f.sup.GenerateAutoReceive(send) }); p != "" {
+		gerr = fmt.Errorf("panic: %s", firstLine(p))
+	}
+	r.note = "contract-receive"
+	if gerr != nil || ce == nil || ce.Transaction == nil {
+		if strings.Contains(fmt.Sprint(gerr), "panic") {
+			r.fail("GenerateAutoReceive of %s by %s panics: %v", h8(send.Hash), addrName(ca), gerr)
+			return
+		}
+		r.c.Emit("LN-put %d crecv %s %s 1 0 | refused", k, addrName(ca), h8(send.Hash))
+		if gerr != nil {
+			r.c.Hit("dbg crecv refused: " + firstLine(gerr.Error()))
+		}
+		r.c.Hit("contract-receive-refused")
+	} else {
+		ierr := r.addTx(ce.Transaction, false)
+		r.emitPut(k, ce.Transaction.Block, ierr)
+		if ierr == nil {
+			r.learn(ce.Transaction.Block)
+			r.c.Hit("contract-receive-accepted")
+			r.c.Hit(fmt.Sprintf("contract-receive-descendants-%d", len(ce.Transaction.Block.DescendantBlocks)))
+		}
+	}
+}
+
+func lnServe(f *zFollower, from, to uint64) []*nom.DetailedMomentum {
+	st := f.ch.GetFrontierMomentumStore()
+	var out []*nom.DetailedMomentum
+	for h := from; h <= to; h++ {
+		m, err := st.GetMomentumByHeight(h)
+		if err != nil || m == nil {
+			return nil
+		}
+		dm, err := st.PrefetchMomentum(m)
+		if err != nil {
+			return nil
+		}
+		out = append(out, dm)
+	}
+	return out
+}
+
+func lnPooledOf(f *zFollower, a types.Address) []*nom.AccountBlock {
+	var out []*nom.AccountBlock
+	for _, b := range f.ch.GetUncommittedAccountBlocksByAddress(a) {
+		if b.BlockType != nom.BlockTypeContractSend {
+			out = append(out, b)
+		}
+	}
+	return out
+}
+
+func lnAdd(f *zFollower, tx *nom.AccountBlockTransaction) (err error) {
+	if p := safely(func() {
+		ins := f.ch.AcquireInsert("zvh ledger-node producer")
+		defer ins.Unlock()
+		err = f.ch.AddAccountBlockTransaction(ins, tx)
+	}); p != "" {
+		err = fmt.Errorf("panic: %s", firstLine(p))
+	}
+	return err
+}
+
+func (r *lnRun) fuseTemplate(u types.Address) *nom.AccountBlock {
+	return &nom.AccountBlock{BlockType: nom.BlockTypeUserSend, Address: u, ToAddress: types.PlasmaContract, TokenStandard: types.QsrTokenStandard,
+		Amount: big.NewInt(int64(10+r.c.R.Intn(5)) * g.Zexp), Data: definition.ABIPlasma.PackMethodPanic(definition.FuseMethodName, r.users[r.c.R.Intn(len(r.users))])}
+}
+
+// prime: unconfirmed blocks in the pool of the node under test before a reorganisation: contract receives of the inbox
+// fronts, a user receive, a user send. `deep`: first two calls of two different users to the same contract, confirmed by ONE
+// momentum (their content order is the inbox order of this branch; a side chain may confirm them in the other order).
+func (r *lnRun) prime(deep bool) {
+	c, f := r.c, r.f
+	if deep {
+		i := c.R.Intn(len(r.users))
+		j := (i + 1 + c.R.Intn(len(r.users)-1)) % len(r.users)
+		for _, u := range []types.Address{r.users[i], r.users[j]} {
+			r.submit(r.fuseTemplate(u), "contract-call")
+			if r.failed {
+				return
+			}
+			r.observe()
+		}
+		var blocks []*nom.AccountBlock
+		var parts []string
+		accs := append(append([]types.Address{}, r.users...), r.cons...)
+		sort.Slice(accs, func(i, j int) bool { return string(accs[i][:]) < string(accs[j][:]) })
+		for _, a := range accs {
+			pl := r.pooled(a)
+			if len(pl) == 0 {
+				continue
+			}
+			for _, b := range pl {
+				blocks = append(blocks, b)
+				blocks = append(blocks, b.DescendantBlocks...)
+			}
+			parts = append(parts, fmt.Sprintf("%s %d", addrName(a), len(pl)))
+		}
+		if !r.momentum(blocks, strings.TrimSpace(fmt.Sprintf("%d %s", len(parts), strings.Join(parts, " ")))) {
+			return
+		}
+		r.observe()
+	}
+	for _, ca := range r.cons {
+		if r.failed {
+			return
+		}
+		mb := f.ch.GetFrontierMomentumStore().GetAccountMailbox(ca)
+		if hd := f.ch.GetFrontierAccountStore(ca).SequencerFront(mb); hd != nil && r.sends[hd.Hash] != nil {
+			r.contractReceive(ca, r.sends[hd.Hash])
+			if !r.failed {
+				r.observe()
+				c.Hit("reorg-primed-contract-receive")
+			}
+		}
+	}
+	for _, u := range r.users {
+		if r.failed {
+			return
+		}
+		if pend, _ := f.ch.GetFrontierMomentumStore().GetAccountMailbox(u).GetUnreceivedAccountBlockHashes(100); len(pend) > 0 && len(r.pooled(u)) == 0 {
+			r.submit(&nom.AccountBlock{BlockType: nom.BlockTypeUserReceive, Address: u, FromBlockHash: pend[c.R.Intn(len(pend))]}, "user-receive")
+			if !r.failed {
+				r.observe()
+				c.Hit("reorg-primed-user-receive")
+			}
+			break
+		}
+	}
+	if r.failed {
+		return
+	}
+	r.submit(&nom.AccountBlock{BlockType: nom.BlockTypeUserSend, Address: r.users[c.R.Intn(len(r.users))], ToAddress: r.users[c.R.Intn(len(r.users))],
+		TokenStandard: types.ZnnTokenStandard, Amount: big.NewInt(int64(1 + c.R.Intn(900)))}, "user-send")
+	if !r.failed {
+		r.observe()
+	}
+}
+
+// bridgeReorg: a reorganisation of the node under test through the REAL sync entry point protocol.ChainBridge.InsertChain.
+// A second real node (producer) receives the trunk up to the fork point from the node under test and builds a strictly
+// longer side chain there: user blocks of the abandoned momentums / of the pool of the node under test that acknowledge
+// the trunk are re-used (account after account in a shuffled order, a random prefix each, spread over the momentums: the
+// same sends are confirmed in the same or in another order, or left out), plus fresh sends, user receives and contract
+// receives of the producer. For the model the operation is `rollbackTo fork` followed by the momentums of the side chain
+// (every block a `put`, every momentum a `mom` over the whole pool); nothing of the old pool may survive.
+func (r *lnRun) bridgeReorg(k uint64) {
+	c, f := r.c, r.f
+	top := f.Height()
+	if k > top-1 {
+		k = top - 1
+	}
+	if k == 0 {
+		return
+	}
+	fork := top - k
+	p, err := newZFollower("")
+	if err != nil {
+		r.fail("cannot start the producer node: %v", err)
+		return
+	}
+	defer p.Destroy()
+	r.note = fmt.Sprintf("reorganisation through ChainBridge.InsertChain (fork at momentum %d, %d abandoned)", fork, k)
+	if fork >= 2 {
+		if _, err := p.InsertChain(lnServe(f, 2, fork)); err != nil || p.Height() != fork {
+			r.fail("a fresh node refuses the trunk 2..%d of the node under test: %v", fork, err)
+			return
+		}
+	}
+	accs := append(append([]types.Address{}, r.users...), r.cons...)
+	sort.Slice(accs, func(i, j int) bool { return string(accs[i][:]) < string(accs[j][:]) })
+	cand := map[types.Address][]*nom.AccountBlock{}
+	isUser := map[types.Address]bool{}
+	for _, u := range r.users {
+		isUser[u] = true
+	}
+	take := func(b *nom.AccountBlock) {
+		if isUser[b.Address] && (b.BlockType == nom.BlockTypeUserSend || b.BlockType == nom.BlockTypeUserReceive) && b.MomentumAcknowledged.Height <= fork {
+			cand[b.Address] = append(cand[b.Address], b.Copy())
+		}
+	}
+	for _, dm := range lnServe(f, fork+1, top) {
+		byHash := map[types.Hash]*nom.AccountBlock{}
+		for _, b := range dm.AccountBlocks {
+			byHash[b.Hash] = b
+		}
+		for _, hd := range dm.Momentum.Content {
+			if b := byHash[hd.Hash]; b != nil {
+				take(b)
+			}
+		}
+	}
+	hadPool := false
+	for _, a := range accs {
+		pl := r.pooled(a)
+		for _, b := range pl {
+			take(b)
+		}
+		if len(pl) > 0 {
+			hadPool = true
+		}
+	}
+	var units []types.Address
+	for _, u := range r.users {
+		if n := len(cand[u]); n > 0 {
+			if c.R.Intn(3) == 0 {
+				cand[u] = cand[u][:c.R.Intn(n+1)]
+			}
+			units = append(units, u)
+		}
+	}
+	c.R.Shuffle(len(units), func(i, j int) { units[i], units[j] = units[j], units[i] })
+	L := int(k) + 1 + c.R.Intn(2)
+	mlines := make([][]string, L) // the lines of the side chain's momentums (emitted once the real fork point is known)
+	for i := 0; i < L && !r.failed; i++ {
+		put := func(kk int, b *nom.AccountBlock) {
+			mlines[i] = append(mlines[i], fmt.Sprintf("LN-put %d %s | ok", kk, lnEvent(b)))
+			r.learn(b)
+		}
+		n := []int{1, 1, 0, 2}[c.R.Intn(4)]
+		for ; n > 0 && len(units) > 0; n-- {
+			u := units[0]
+			units = units[1:]
+			for _, b := range cand[u] {
+				kk := len(lnPooledOf(p, u))
+				var tx *nom.AccountBlockTransaction
+				var aerr error
+				if pn := safely(func() { tx, aerr = p.sup.ApplyBlock(b) }); pn != "" {
+					aerr = fmt.Errorf("panic: %s", firstLine(pn))
+				}
+				if aerr == nil {
+					aerr = lnAdd(p, tx)
+				}
+				if aerr != nil {
+					c.Hit("reorg-reused-block-refused-on-side-chain")
+					break
+				}
+				put(kk, b)
+				c.Hit("reorg-reused-block")
+			}
+		}
+		if c.R.Intn(2) == 0 { // a fresh block of the side chain
+			u := r.users[c.R.Intn(len(r.users))]
+			var tpl *nom.AccountBlock
+			switch c.R.Intn(3) {
+			case 0:
+				tpl = r.fuseTemplate(u)
+			case 1:
+				tpl = &nom.AccountBlock{BlockType: nom.BlockTypeUserSend, Address: u, ToAddress: r.users[c.R.Intn(len(r.users))],
+					TokenStandard: types.ZnnTokenStandard, Amount: big.NewInt(int64(1 + c.R.Intn(900)))}
+			default:
+				if pend, _ := p.ch.GetFrontierMomentumStore().GetAccountMailbox(u).GetUnreceivedAccountBlockHashes(100); len(pend) > 0 {
+					tpl = &nom.AccountBlock{BlockType: nom.BlockTypeUserReceive, Address: u, FromBlockHash: pend[c.R.Intn(len(pend))]}
+				}
+			}
+			if tpl != nil {
+				kk := len(lnPooledOf(p, u))
+				var tx *nom.AccountBlockTransaction
+				var gerr error
+				if pn := safely(func() { tx, gerr = p.sup.GenerateFromTemplate(tpl, keyOf(u).Signer) }); pn != "" {
+					gerr = fmt.Errorf("panic: %s", firstLine(pn))
+				}
+				if gerr == nil && tx != nil {
+					if gerr = lnAdd(p, tx); gerr == nil {
+						put(kk, tx.Block)
+						c.Hit("reorg-fresh-block")
+					}
+				}
+			}
+		}
+		for _, ca := range r.cons { // the contracts of the side chain answer their inbox fronts
+			if c.R.Intn(2) != 0 {
+				continue
+			}
+			mb := p.ch.GetFrontierMomentumStore().GetAccountMailbox(ca)
+			hd := p.ch.GetFrontierAccountStore(ca).SequencerFront(mb)
+			if hd == nil {
+				continue
+			}
+			send, _ := p.ch.GetFrontierMomentumStore().GetAccountBlockByHash(hd.Hash)
+			if send == nil {
+				continue
+			}
+			kk := len(lnPooledOf(p, ca))
+			var ce *vm.ContractExecution
+			var gerr error
+			if pn := safely(func() { ce, gerr = p.sup.GenerateAutoReceive(send) }); pn != "" {
+				gerr = fmt.Errorf("panic: %s", firstLine(pn))
+			}
+			if gerr == nil && ce != nil && ce.Transaction != nil {
+				if gerr = lnAdd(p, ce.Transaction); gerr == nil {
+					put(kk, ce.Transaction.Block)
+					c.Hit("reorg-side-chain-contract-receive")
+				}
+			}
+		}
+		var blocks []*nom.AccountBlock
+		var parts []string
+		for _, a := range accs {
+			pl := lnPooledOf(p, a)
+			if len(pl) == 0 {
+				continue
+			}
+			for _, b := range pl {
+				blocks = append(blocks, b)
+				blocks = append(blocks, b.DescendantBlocks...)
+			}
+			parts = append(parts, fmt.Sprintf("%s %d", addrName(a), len(pl)))
+		}
+		merr := lnProduce(p, blocks)
+		mlines[i] = append(mlines[i], fmt.Sprintf("LN-mom %s | ok", strings.TrimSpace(fmt.Sprintf("%d %s", len(parts), strings.Join(parts, " ")))))
+		if merr != nil {
+			r.fail("the producer node refuses a momentum over its own pool: %v", merr)
+			return
+		}
+	}
+	if r.failed {
+		return
+	}
+	batch := lnServe(p, fork+1, p.Height())
+	// the first momentums of the side chain may coincide with the node's own ones (same content, same producer, same time):
+	// the reorganisation then starts above them
+	same := 0
+	for same < len(batch) && fork+uint64(same)+1 <= top {
+		own, _ := f.ch.GetFrontierMomentumStore().GetMomentumByHeight(fork + uint64(same) + 1)
+		if own == nil || own.Hash != batch[same].Momentum.Hash {
+			break
+		}
+		same++
+	}
+	if fork+uint64(same) == top { // a pure extension of the node's chain: no reorganisation (the sync streams deliver those)
+		c.Hit("reorg-side-chain-coincides-with-own-branch")
+		return
+	}
+	if same > 0 {
+		c.Hit("reorg-side-chain-shares-momentums-with-own-branch")
+	}
+	r.note = fmt.Sprintf("reorganisation through ChainBridge.InsertChain (fork at momentum %d, %d abandoned, side chain of %d momentums delivered from %d)", fork+uint64(same), top-fork-uint64(same), len(batch)-same, fork+1)
+	c.Emit("LN-rollback %d | ok", fork+uint64(same)-1)
+	for _, ls := range mlines[same:] {
+		for _, l := range ls {
+			c.Emit("%s", l)
+		}
+	}
+	_, ierr := f.InsertChain(batch)
+	if ierr != nil || f.Height() != p.Height() || f.ch.GetFrontierMomentumStore().Identifier() != p.ch.GetFrontierMomentumStore().Identifier() {
+		r.fail("a valid, strictly longer side chain (%d momentums on momentum %d; own branch had %d) was not adopted through ChainBridge.InsertChain: %v (height %d, producer %d)",
+			len(batch), fork, k, ierr, f.Height(), p.Height())
+		return
+	}
+	c.Hit("reorg-through-bridge")
+	c.Hit(fmt.Sprintf("reorg-through-bridge-abandons-%d", k))
+	if hadPool {
+		c.Hit("reorg-through-bridge-with-pooled-blocks")
+	}
 }
 
 func ledgerNodeHistory(c *Ctx, id int) {
@@ -625,32 +1014,7 @@ func ledgerNodeHistory(c *Ctx, id int) {
 					send = r.sends[hd.Hash]
 				}
 			}
-			k := len(r.pooled(ca))
-			var ce *vm.ContractExecution
-			var gerr error
-			if p := safely(func() { ce, gerr = f.sup.GenerateAutoReceive(send) }); p != "" {
-				gerr = fmt.Errorf("panic: %s", firstLine(p))
-			}
-			r.note = "contract-receive"
-			if gerr != nil || ce == nil || ce.Transaction == nil {
-				if strings.Contains(fmt.Sprint(gerr), "panic") {
-					r.fail("GenerateAutoReceive of %s by %s panics: %v", h8(send.Hash), addrName(ca), gerr)
-					break
-				}
-				c.Emit("LN-put %d crecv %s %s 1 0 | refused", k, addrName(ca), h8(send.Hash))
-				if gerr != nil {
-					c.Hit("dbg crecv refused: " + firstLine(gerr.Error()))
-				}
-				c.Hit("contract-receive-refused")
-			} else {
-				ierr := r.addTx(ce.Transaction, false)
-				r.emitPut(k, ce.Transaction.Block, ierr)
-				if ierr == nil {
-					r.learn(ce.Transaction.Block)
-					c.Hit("contract-receive-accepted")
-					c.Hit(fmt.Sprintf("contract-receive-descendants-%d", len(ce.Transaction.Block.DescendantBlocks)))
-				}
-			}
+			r.contractReceive(ca, send)
 		case x < 72: // competitor for the height of a pooled user block (everything built on it is displaced)
 			var accs []types.Address
 			for _, a := range r.users {
@@ -749,6 +1113,19 @@ func ledgerNodeHistory(c *Ctx, id int) {
 				c.Hit("momentum-partial-content")
 			}
 			r.momentum(blocks, strings.TrimSpace(fmt.Sprintf("%d %s", len(parts), strings.Join(parts, " "))))
+		case x < 98 && f.Height() > 2 && c.R.Intn(2) == 0: // reorganisation delivered by a peer (ChainBridge.InsertChain)
+			k := uint64(1 + c.R.Intn(3))
+			switch c.R.Intn(3) {
+			case 0:
+				r.prime(true)
+				k = 1
+			case 1:
+				r.prime(false)
+			}
+			if r.failed {
+				break
+			}
+			r.bridgeReorg(k)
 		case x < 98 && f.Height() > 2: // rollback
 			k := uint64(c.R.Intn(4))
 			if k >= f.Height()-1 {
